@@ -53,6 +53,7 @@ def run(tier):
     _c_caps(chk)
     _d_configs(chk)
     _d_period(chk)
+    _d_start_symmetry(chk)
     _e_jacobian(chk)
     _e_tolerance_chain(chk)
     return chk
@@ -469,6 +470,80 @@ def _d_configs(chk):
     for name, idx in (("_g_x0", 0), ("_g_y0", 1), ("_g_z0", 2)):
         v = S(ipg.call_function(SH, name, [sp.Symbol("t"), y]))
         chk.check(v == y[idx], "C05.d", f"{SH}::{name}", f"{name} reads {v}, expected y[{idx}]", sample=f"{name}(t,y) = y[{idx}]")
+
+
+def _guess_zero_pattern(omod, fam):
+    """Indices of the analytic initial guess that are identically zero (the guess is interpreted with symbolic amplitudes,
+    gamma, c_n and linear modes; sin(0) = 0 makes the pattern exact)."""
+    cls = next((c for c in omod.tree.body if isinstance(c, ast.ClassDef) and c.name == f"_{fam}OrbitDynamicsService"), None)
+    if cls is None or not any(isinstance(f, ast.FunctionDef) and f.name == "initial_guess" for f in cls.body):
+        return None
+    dyn = SymObj(None, {"gamma": sp.Symbol("gamma", positive=True), "won": (sp.Symbol("won"), sp.Symbol("primary")), "cn": lambda n: sp.Symbol(f"c{n}"),
+                        "linear_modes": (sp.Symbol("lam1"), sp.Symbol("lam2"), sp.Symbol("lam3")), "position": to_obj_array([sp.Symbol("px"), 0, 0])}, "dyn")
+    lp = SymObj(None, {"dynamics": dyn, "idx": 1, "position": to_obj_array([sp.Symbol("px"), 0, 0])}, "lp")
+    A = sp.Symbol("A", positive=True)
+    svc = SymObj(ClassRef(omod, cls), {"amplitude": A, "libration_point": lp, "_libration_point": lp, "mu": sp.Symbol("mu"), "zenith": "northern", "_zenith": "northern",
+                                       "_amplitude_z": A, "_amplitude_x": A}, "svc")
+    ip = Interp(decide=lambda c: None)
+    try:
+        out = to_obj_array(ip.apply(ip.getattr(svc, "initial_guess"), [], {}))
+    except (KpeRaise, OutsideFragment):
+        return None
+    return {i for i in range(6) if S(out[i]) == 0}
+
+
+def _d_start_symmetry(chk):
+    """Mirror theorem, both ends: the corrected orbit closes after 2*tau only if the start state lies (and stays, under the
+    corrections applied to the control components) in the fixed set of the SAME reversing symmetry whose fixed set the
+    event + residual make it hit perpendicularly at tau; if the two fixed sets belong to different symmetries the orbit is
+    doubly symmetric and closes after 4*tau; if the controls move the start state off every fixed set it does not close at all."""
+    omod = ri.need_module(OS)
+    n = 0
+    for cls in omod.tree.body:
+        if not (isinstance(cls, ast.ClassDef) and cls.name.endswith("OrbitCorrectionService") and cls.name != "_OrbitCorrectionService"):
+            continue
+        fam = cls.name[1:-len("OrbitCorrectionService")]
+        fn = next((f for f in cls.body if isinstance(f, ast.FunctionDef) and f.name == "_default_correction_config"), None)
+        if fn is None:
+            continue
+        cap = {}
+        ip = Interp(overrides={"OrbitCorrectionConfig": lambda ip_, a, k: (cap.update(k), SymObj(None, dict(k), "cfg"))[1], "IntegrationConfig": lambda ip_, a, k: SymObj(None, dict(k), "icfg"),
+                               "NumericalConfig": lambda ip_, a, k: SymObj(None, dict(k), "ncfg"), "_plane_crossing_factory": lambda ip_, a, k: ("plane", a[0])})
+        svc = SymObj(ClassRef(omod, cls), {"_halo_quadratic_term": sp.Symbol("HALO_TERM")}, "svc")
+        try:
+            ip.apply(ip.getattr(svc, "_default_correction_config"), [], {})
+        except KpeRaise:
+            continue
+        Z0 = _guess_zero_pattern(omod, fam)
+        if Z0 is None:
+            chk.note(f"{cls.name}: no analytic initial guess to read the start symmetry from")
+            continue
+        n += 1
+        ev = cap.get("event_func")
+        coord = {"x": 0, "y": 1, "z": 2}.get(ev[1]) if isinstance(ev, tuple) and ev[0] == "plane" else None
+        res = {int(S(i)) for i in cap.get("residual_indices", ())}
+        ctl = {int(S(i)) for i in cap.get("control_indices", ())}
+        Z1 = res | ({coord} if coord is not None else set())
+        start = [nm for nm, (zs, free) in SYMMETRIES.items() if zs <= Z0 and ctl <= free]
+        arrive = [nm for nm, (zs, free) in SYMMETRIES.items() if zs == Z1 or (zs <= Z1 and Z1 - zs <= Z0)]
+        names = {0: "x", 1: "y", 2: "z", 3: "vx", 4: "vy", 5: "vz"}
+        chk.check(bool(start), "C05.d", f"{OS}::{cls.name}._default_correction_config[start symmetry]",
+                  f"{fam}: the analytic start state has zero components {sorted(names[i] for i in Z0)} but the controls {sorted(names[i] for i in ctl)} are not free coordinates of a "
+                  f"reversing symmetry whose fixed set contains it (S1 free x,z,vy; S2 free x,vy,vz): the corrector moves the start state off the symmetry set, so a perpendicular "
+                  f"arrival at {sorted(names[i] for i in Z1)} = 0 does not close the orbit", sample=f"{fam}: start in Fix({start}), controls {sorted(names[i] for i in ctl)} stay inside")
+        # period multiplier applied by this family's service
+        dyn = SymObj(None, {"reset": lambda: None, "_initial_state": None, "period": None}, "dynamics")
+        hp = sp.Symbol("HALF", positive=True)
+        svc2 = SymObj(ClassRef(omod, cls), {"domain_obj": SymObj(None, {"dynamics": dyn}, "orbit")}, "svc")
+        payload = SymObj(None, {"x_full": to_obj_array([sp.Symbol(f"xf{i}") for i in range(6)]), "half_period": hp}, "payload")
+        Interp().apply(Interp().getattr(svc2, "apply_correction"), [payload], {})
+        mult = sp.simplify(S(dyn.attrs["period"]) / hp)
+        same = bool(set(start) & set(arrive)) if start else bool(arrive)
+        want = 2 if same else 4
+        chk.check(bool(arrive) and mult == want, "C05.d", f"{OS}::{cls.name}[period multiplier]",
+                  f"{fam}: start fixed set {start or 'none'}, arrival fixed set {arrive or 'none'} -> the event time is a {'half' if same else 'quarter'} period, "
+                  f"but the service sets period = {mult} * event time", sample=f"{fam}: start {start}, arrival {arrive}, period = {mult} * tau")
+    chk.floor("families with an analytic start state examined", n, 3)
 
 
 def _d_period(chk):
